@@ -30,7 +30,7 @@ func init() {
 var profC04 = Profile{
 	MaxBars: 7, MinBars: 1, MaxSteps: 40, Refresh: []string{"manual", "manual", "manual", "manual", "manual", "none"}, QLens: []int{-1},
 	Pop: 35, Queue: 15, Prio: true, PrioOnFinished: true, Ext: 30, Text: 3, Rm: 30, NoPop: 20, AbortW: 2, TicksW: 10,
-	Pty: 55, PtyRowsMax: 8, Delay: 15, Fillers: []string{"bar", "bar", "spinner", "spinnerv"}, LateAdd: true, Cancel: 5, PrioMidRender: 10, PlainDecors: 1,
+	Pty: 55, PtyRowsMax: 8, Delay: 15, Fillers: []string{"bar", "bartip", "spinner", "spinnerv"}, LateAdd: true, Cancel: 5, PrioMidRender: 10, PlainDecors: 1,
 }
 
 func genC04(t *rapid.T) interface{} {
